@@ -24,7 +24,7 @@ RETRY_KINDS = ("normal", "raise", "sec", "oneway")
 ONEWAY_KINDS = ("oneway", "batchoneway")
 EXPECT = {"normal": "result", "batch": "result", "attr": "result", "stream": "result", "raise": "raised", "batchraise": "raised",
           "sec": "sec", "oneway": "none", "batchoneway": "none"}
-FAULTS0 = ["deliver", "dropreq", "dropreply", "delay", "resetbefore", "resetafter", "resetafterreply", "dup", "wrongtype"]
+FAULTS0 = ["deliver", "dropreq", "dropreply", "delay", "resetbefore", "resetafter", "resetafterreply", "resetdelivered", "dup", "wrongtype"]
 
 CUR = [0]          # token of the call being made (stands in for the argument of argument-less kinds)
 _ENV = {}
@@ -116,6 +116,8 @@ def fault_dict(f):
         return {"kind": "reset_after"}
     if k == "resetafterreply":
         return {"kind": "reset_after_reply"}
+    if k == "resetdelivered":
+        return {"kind": "reset_delivered"}
     if k == "stale":
         return {"kind": "stale_k", "k": f[1]}
     if k == "dup":
@@ -304,7 +306,8 @@ def oracle(case, obs):
         else:
             n = len(log)
             if n != o["delivered"]:
-                bad.append(("delivered-not-executed-once", "%s: %d requests reached the server, the method ran %d times" % (where, o["delivered"], n)))
+                sig = "oneway-delivered-not-executed-once" if kind in ONEWAY_KINDS else "delivered-not-executed-once"
+                bad.append((sig, "%s: %d requests reached the server, the method ran %d times" % (where, o["delivered"], n)))
         if kind in ONEWAY_KINDS:
             if n > 1:
                 bad.append(("oneway-executed-twice", "%s: a oneway call ran its method %d times" % (where, n)))
@@ -326,7 +329,7 @@ def oracle(case, obs):
 def c_fault(f):
     k = f[0]
     simple = {"deliver": "FDeliver", "dropreq": "FDropReq", "dropreply": "FDropReply", "delay": "FDelay", "cut": "FCut",
-              "resetbefore": "FResetBefore", "resetafter": "FResetAfter", "resetafterreply": "FResetAfterReply", "dup": "FDup",
+              "resetbefore": "FResetBefore", "resetafter": "FResetAfter", "resetafterreply": "FResetAfterReply", "resetdelivered": "FResetDelivered", "dup": "FDup",
               "wrongtype": "FWrongType"}
     if k in simple:
         return simple[k]
@@ -489,7 +492,7 @@ def run(ctx, model_ok=True):
     res.rule = ("histories of 1..8 (some up to 40) calls on one proxy — normal, raising, SecurityError, oneway, batch, raising batch, "
                 "oneway batch, attribute read, stream fetch — each call with its own fault script (one entry per client message, CONNECT "
                 "included): deliver, request lost, reply lost, reply late, reply cut + reset, reset before/after processing, reset after "
-                "the full reply, replay of an earlier reply, duplicate, altered sequence number, altered message type; MAX_RETRIES 0/1/2; "
+                "the full reply, reset after delivery but before the server handles the request, replay of an earlier reply, duplicate, altered sequence number, altered message type; MAX_RETRIES 0/1/2; "
                 "initial _pyroSeq around the 16-bit wrap; non-trivial = at least two calls and one non-deliver fault")
     res.samples = cases[-2:] + targeted()[:2]
     return res
